@@ -406,6 +406,29 @@ class _Rows:
     pass
 
 
+def _align_for_setitem(value, index):
+    """pandas aligns an assigned Series on the frame's index: equal indexes -> positional; otherwise the Series is re-indexed
+    (labels missing from it become missing values; a Series whose own index has duplicates cannot be re-indexed)."""
+    vidx = value._index
+    if len(vidx) == len(index) and all(a is b for a, b in zip(vidx, index)):
+        return list(value._values)
+    if len(vidx) == len(index) and all(a == b for a, b in zip(vidx, index)):
+        return list(value._values)
+    for i in range(len(vidx)):
+        for j in range(i):
+            if vidx[i] == vidx[j]:
+                raise ValueError("cannot reindex on an axis with duplicate labels")
+    out = []
+    for lab in index:
+        hit = None
+        for k, v in zip(vidx, value._values):
+            if k == lab:
+                hit = v
+                break
+        out.append(hit)
+    return out
+
+
 class DataFrame:
     __module__ = "pandas.core.frame"
 
@@ -448,6 +471,27 @@ class DataFrame:
             if self._names and len(idx) != len(self):
                 raise ValueError("Length of index does not match")
             self._index = list(idx)
+
+    @classmethod
+    def from_dict(cls, data, orient="columns", dtype=None, columns=None):
+        if dtype is not None:
+            raise ModelUnsupported("from_dict(dtype=)")
+        if orient == "columns":
+            if columns is not None:
+                raise ValueError("cannot use columns parameter with orient='columns'")
+            return cls(dict(data))
+        if orient != "index":
+            raise ModelUnsupported(f"from_dict(orient={orient!r})")
+        keys = list(data.keys())
+        rows = [data[k] for k in keys]
+        if any(isinstance(r, (dict, Series)) for r in rows):
+            raise ModelUnsupported("from_dict(orient='index') with mapping rows")
+        rows = [npm._as_list(r) for r in rows]
+        width = len(rows[0]) if rows else (len(columns) if columns is not None else 0)
+        names = list(columns) if columns is not None else list(range(width))
+        if rows and any(len(r) != len(names) for r in rows):
+            raise ValueError(f"{len(names)} columns passed, passed data had {width} columns")
+        return cls._from_cols(names, [[r[j] for r in rows] for j in range(len(names))], keys)
 
     @classmethod
     def _from_cols(cls, names, cols, index):
@@ -563,13 +607,16 @@ class DataFrame:
                     self[k] = Series(value._cols[n], value._index)
                 return
             raise ModelUnsupported("list-key assignment of non-frame")
+        empty_frame = not self._index and all(len(self._cols[n]) == 0 for n in self._names)
         if isinstance(value, Series):
             vals = list(value._values)
+            if not empty_frame:
+                vals = _align_for_setitem(value, self._index)
         elif isinstance(value, (list, NDArray, tuple)):
             vals = npm._as_list(value)
         else:
             vals = [value] * len(self)
-        if not self._index and all(len(self._cols[n]) == 0 for n in self._names):
+        if empty_frame:
             # assigning into a frame without rows: the frame takes the new column's index, other columns become missing
             self._index = list(value._index) if isinstance(value, Series) else _default_index(len(vals))
             for n in self._names:
